@@ -113,7 +113,7 @@ func connect(transport string, rng *rand.Rand, progress *int64, fin func(qnet.En
 }
 
 func c10(c *wk.Ctx) {
-	c.Note("rule", "each plan: one connection over a transport (harness stream with yields and read fragmentation, net.Pipe, unix, tcp, tls, fd-passing pipe), 2-16 sender goroutines released by a barrier, each sending its own numbered messages (payload 0 B - 256 KiB, content a keyed function of (sender, seq)) through EndPoint.Send; the receiving endpoint has an 'all' handler plus 2-5 handlers with overlapping filters (sender set, type, seq parity), queues sized for the whole traffic; in a third of the plans a further handler with a full one-slot queue selects everything as well. Oracle: the 'all' handler gets every (sender, seq) exactly once with intact payload and each sender's messages in order; every other handler gets exactly its filter applied to that sequence, in the same order; loss is decided by the quiescence detector. Stream churn: the receiver's handler set grows to 13-32 handlers and shrinks again step by step to the two real ones ('all', 'even ids'), a numbered batch after every change: each real handler gets exactly its selection, in order (sweep over handlers registered x handlers removed first). Distinct non-trivial = distinct (transport, plan) with at least two senders whose messages interleaved at the receiver.")
+	c.Note("rule", "each plan: one connection over a transport (harness stream with yields and read fragmentation, net.Pipe, unix, tcp, tls, fd-passing pipe), 2-16 sender goroutines released by a barrier, each sending its own numbered messages (payload 0 B - 256 KiB, content a keyed function of (sender, seq)) through EndPoint.Send; the receiving endpoint has an 'all' handler plus 2-5 handlers with overlapping filters (sender set, type, seq parity), queues sized for the whole traffic; in a third of the plans a further handler with a full one-slot queue selects everything as well; in half of the plans 1-4 one-shot handlers (keep = false) occupy lower slots and ReceiveAny handlers come and go during the traffic (each takes exactly one message). Oracle: the 'all' handler gets every (sender, seq) exactly once with intact payload and each sender's messages in order; every other handler gets exactly its filter applied to that sequence, in the same order; loss is decided by the quiescence detector. Stream churn: the receiver's handler set grows to 13-32 handlers and shrinks again step by step to the two real ones ('all', 'even ids'), a numbered batch after every change: each real handler gets exactly its selection, in order (sweep over handlers registered x handlers removed first). Distinct non-trivial = distinct (transport, plan) with at least two senders whose messages interleaved at the receiver.")
 	plansPer := c.Pick(8, 300)
 	c.Cases("plan", len(c10transports)*plansPer, func(i int, rng *rand.Rand) {
 		transport := c10transports[i%len(c10transports)]
@@ -176,7 +176,23 @@ func c10one(c *wk.Ctx, i int, rng *rand.Rand, transport string) {
 			atomic.StoreInt32(&h.closed, 1)
 		}(h)
 	}
+	// in half of the plans one-shot handlers (filter: everything, keep = false; what ReceiveAny and the
+	// reply handler of a call are) sit in slots BELOW the persistent handlers, and further ones are
+	// created with ReceiveAny while the traffic flows: each takes one message and goes away, the
+	// persistent handlers still get everything their filters select
+	oneShots := 0
+	if rng.Intn(2) == 0 {
+		oneShots = 1 + rng.Intn(4)
+	}
+	oneShotQueues := make([]chan *qnet.Message, oneShots)
+	var lateAny int32
+	stopAny := make(chan struct{})
+	anyDone := make(chan struct{})
 	snd, recv, cleanup, err := connect(transport, rng, &progress, func(e qnet.EndPoint) {
+		for k := range oneShotQueues {
+			oneShotQueues[k] = make(chan *qnet.Message, 2)
+			e.MakeHandler(func(hdr *qnet.Header) (bool, bool) { return true, false }, oneShotQueues[k], nil)
+		}
 		if stuckSibling {
 			e.MakeHandler(func(hdr *qnet.Header) (bool, bool) { return true, true }, stuckQueue, nil)
 		}
@@ -193,6 +209,38 @@ func c10one(c *wk.Ctx, i int, rng *rand.Rand, transport string) {
 		return
 	}
 	defer cleanup()
+	var anyBad atomic.Value
+	go func() {
+		defer close(anyDone)
+		if oneShots == 0 {
+			return
+		}
+		for {
+			select {
+			case <-stopAny:
+				return
+			default:
+			}
+			ch, err := recv.ReceiveAny()
+			if err != nil {
+				return
+			}
+			select {
+			case m, ok := <-ch:
+				if !ok {
+					return // the connection was closed
+				}
+				_ = m
+				atomic.AddInt32(&lateAny, 1)
+				if m2, ok := <-ch; ok {
+					anyBad.Store(fmt.Sprintf("a ReceiveAny channel delivered a second message (sender %d, seq %d)", m2.Header.Service, m2.Header.ID))
+					return
+				}
+			case <-stopAny:
+				return
+			}
+		}
+	}()
 
 	start := make(chan struct{})
 	var wg sync.WaitGroup
@@ -223,9 +271,35 @@ func c10one(c *wk.Ctx, i int, rng *rand.Rand, transport string) {
 	if v == stuck.Returned {
 		v, dump = stuck.Wait(sendersDone, &progress, 5*time.Minute)
 	}
+	close(stopAny)
 	snd.Close()
 	recv.Close()
-	detail := map[string]interface{}{"transport": transport, "senders": nSenders, "per_sender": perSender, "max_payload": maxLen, "handlers": len(handlers), "full_sibling_handler": stuckSibling}
+	<-anyDone
+	for k, q := range oneShotQueues {
+		n := 0
+	drain:
+		for {
+			select {
+			case _, ok := <-q:
+				if !ok {
+					break drain
+				}
+				n++
+			default:
+				break drain
+			}
+		}
+		if n != 1 && total > oneShots {
+			c.Viol("plan", i, "one-shot=count/"+transport, fmt.Sprintf("one-shot handler %d (keep = false) received %d messages, exactly one was expected", k, n), map[string]interface{}{"transport": transport, "one_shot_handlers": oneShots})
+			return
+		}
+	}
+	if e, ok := anyBad.Load().(string); ok {
+		c.Viol("plan", i, "one-shot=twice/"+transport, e, map[string]interface{}{"transport": transport})
+		return
+	}
+	c.Count("one_shot_handlers_served", int64(oneShots)+int64(atomic.LoadInt32(&lateAny)))
+	detail := map[string]interface{}{"transport": transport, "one_shot_handlers_below": oneShots, "one_shot_handlers_during_traffic": atomic.LoadInt32(&lateAny), "senders": nSenders, "per_sender": perSender, "max_payload": maxLen, "handlers": len(handlers), "full_sibling_handler": stuckSibling}
 	if stuckSibling {
 		c.Count("plans_with_a_full_sibling_handler", 1)
 	}
